@@ -88,6 +88,9 @@ def gen_rx(seed, opts=None):
                 ia['dispose_after'] = rng.randint(1, 4)
             elif rng.random() < 0.1:
                 ia['dispose_at'] = round(rng.uniform(0, 0.01), 5)
+            elif rng.random() < 0.1:
+                ia['dispose_at'] = 0.0  # in the very iteration of subscribe()
+                ia['dispose_now'] = rng.random() < 0.5  # ... or synchronously right after it
         ias.append(ia)
     plan['interactions'] = ias
     plan['horizon'] = 20.0
@@ -314,6 +317,7 @@ def _run(world, plan):
                     core['sub']['cancel_after'] = ia['dispose_after']
                 elif ia.get('dispose_at') is not None:
                     core['sub']['cancel_at'] = ia['dispose_at']
+                    core['sub']['cancel_hops'] = 0
             if kind == 'channel':
                 core['pub'] = dict(ia['pub']) if ia.get('pub') else None
             app.start_interaction(world, 'client', core)
@@ -344,7 +348,12 @@ def _run(world, plan):
                     world.rec('act', ep='client', what='cancel', iid=iid, role='requester')
                     observer.disposable.dispose()
 
-                loop.call_later(ia['dispose_at'], dispose)
+                if ia.get('dispose_now'):
+                    dispose()
+                elif ia['dispose_at'] == 0.0:
+                    loop.call_soon(dispose)
+                else:
+                    loop.call_later(ia['dispose_at'], dispose)
         except Exception as e:
             world.rec('act', ep='client', what='request_failed', iid=iid, err='%s: %s' % (type(e).__name__, str(e)[:100]))
 
